@@ -485,6 +485,9 @@ fn main() {
             usable.iter().filter(|s| s.limit.is_none() && s.max_mem.is_none() && s.ttl.is_none() && !s.is_result && s.is_async == ((variant / 2) % 2 == 1)).collect()
         } else if calls_only {
             usable.iter().filter(|s| s.limit.map(|l| l <= 2).unwrap_or(false) && s.ttl.is_none() && s.max_mem.is_none() && !s.is_result && s.is_async == ((variant / 2) % 2 == 1)).collect()
+        } else if pi % 4 == 2 {
+            // memory-bounded hot cache (memory-aware store path under contention)
+            usable.iter().filter(|s| s.max_mem.is_some() && s.limit.map(|l| l <= 3).unwrap_or(true) && s.is_async == (variant % 2 == 1)).collect()
         } else {
             usable.iter().filter(|s| s.limit.map(|l| l <= 2).unwrap_or(false) && s.is_async == (pi % 3 == 1)).collect()
         };
